@@ -1,0 +1,698 @@
+//go:build verif
+
+package ackhandler
+
+// Contracts for internal/ackhandler (properties C05, C06, C07, C14).
+
+// ---------------- assumed contracts on the slices package (pointwise, no sequence terms) ----------------
+//@ extern slices.Insert
+//@   requires 0 <= i && i <= len(s)
+//@   ensures [len]    len(result) == len(s) + len(v)
+//@   ensures [before] forall(k, 0, i, result[k] == old(s[k]), trig(result, k))
+//@   ensures [new]    forall(k, 0, len(v), result[i+k] == old(v[k]), trig(v, k))
+//@   ensures [after]  forall(k, i + len(v), len(s) + len(v), result[k] == old(s[k-len(v)]), trig(result, k))
+//@   ensures [after-by-old]  forall(m, i, len(s), result[m+len(v)] == old(s[m]), old(trig(s, m)))
+//@   ensures [before-by-old] forall(m, 0, i, result[m] == old(s[m]), old(trig(s, m)))
+//@   ensures [array]  samearray(result, s) || isfresh(result)
+//@   modifies s[*]
+
+//@ extern slices.Delete
+//@   requires 0 <= i && i <= j && j <= len(s)
+//@   ensures [len]    len(result) == len(s) - (j - i)
+//@   ensures [before] forall(k, 0, i, result[k] == old(s[k]), trig(result, k))
+//@   ensures [after]  forall(k, i, len(s) - (j - i), result[k] == old(s[k + (j - i)]), trig(result, k))
+//@   ensures [after-by-old]  forall(m, j, len(s), result[m - (j - i)] == old(s[m]), old(trig(s, m)))
+//@   ensures [before-by-old] forall(m, 0, i, result[m] == old(s[m]), old(trig(s, m)))
+//@   ensures [array]  samearray(result, s)
+//@   modifies s[*]
+
+// ---------------- receivedPacketHistory ----------------
+// well-formedness of the range list: non-empty intervals, strictly ascending, non-adjacent
+//@ pred (h *receivedPacketHistory) w1() =
+//@      forall(k, 0, len(h.ranges), 0 <= h.ranges[k].Start && h.ranges[k].Start <= h.ranges[k].End && h.ranges[k].End <= 4611686018427387903, trig(h.ranges, k))
+//@ pred (h *receivedPacketHistory) w2() = forall2(j, k, 0, len(h.ranges), h.ranges[j].End + 1 < h.ranges[k].Start, trig(h.ranges, j), trig(h.ranges, k))
+//@ pred (h *receivedPacketHistory) rInv() = h.w1() && h.w2()
+
+//@ spec covered(h *receivedPacketHistory, q int64) bool = exists(k, 0, len(h.ranges), h.ranges[k].Start <= q && q <= h.ranges[k].End, trig(h.ranges, k))
+
+//@ func (h *receivedPacketHistory) IsPotentiallyDuplicate
+//@   props C07
+//@   requires h.rInv()
+//@   ensures [iff] iff(result, p < h.deletedBelow || covered(h, p))
+//@   modifies nothing
+//@ loop (h *receivedPacketHistory) IsPotentiallyDuplicate #0
+//@   invariant -1 <= i && i < len(h.ranges)
+//@   invariant forall(k, i+1, len(h.ranges), p < h.ranges[k].Start, trig(h.ranges, k))
+//@   invariant p >= h.deletedBelow
+//@   decreases i + 1
+
+//@ func (h *receivedPacketHistory) DeleteBelow
+//@   props C07
+//@   requires h.rInv()
+//@   ensures [monotone] h.deletedBelow == max(old(h.deletedBelow), p)
+//@   ensures [stale-noop] implies(p < old(h.deletedBelow), len(h.ranges) == old(len(h.ranges)))
+//@   ensures [inv] h.rInv()
+//@   ensures [floor] implies(p >= old(h.deletedBelow), forall(k, 0, len(h.ranges), h.ranges[k].Start >= p, trig(h.ranges, k)))
+//@   ensures [keeps-above] forall(q, implies(q >= p && old(covered(h, q)), covered(h, q)))
+//@   modifies h.deletedBelow, h.ranges, h.ranges[*]
+//@ loop (h *receivedPacketHistory) DeleteBelow #0
+//@   invariant 0 <= i && i <= len(h.ranges) && idx == i - 1 && len(h.ranges) >= 1
+//@   invariant forall(k, 0, i, h.ranges[k].End < p, trig(h.ranges, k))
+//@   modifies nothing
+
+//@ func (h *receivedPacketHistory) addToRanges
+//@   props C07
+//@   requires h.rInv() && 0 <= p && p <= 4611686018427387903
+//@   ensures [inv-w1] h.w1()
+//@   ensures [inv-w2] h.w2()
+//@   ensures [covered] covered(h, p)
+//@   ensures [new-iff] iff(result, !old(covered(h, p)))
+//@   ensures [keeps] forall(q, implies(old(covered(h, q)), covered(h, q)))
+//@   ensures [only-p] forall(q, implies(covered(h, q) && q != p, old(covered(h, q))))
+//@   ensures [len] len(h.ranges) <= old(len(h.ranges)) + 1
+//@   ensures [array] samearray(h.ranges, old(h.ranges)) || isfresh(h.ranges)
+//@   modifies h.ranges, h.ranges[*]
+//@ loop (h *receivedPacketHistory) addToRanges #0
+//@   invariant -1 <= i && i < len(h.ranges) && len(h.ranges) >= 1
+//@   invariant forall(k, i+1, len(h.ranges), p + 1 < h.ranges[k].Start, trig(h.ranges, k))
+//@   modifies nothing
+//@   decreases i + 1
+
+//@ func (h *receivedPacketHistory) ReceivedPacket
+//@   props C07
+//@   requires h.rInv() && 0 <= p && p <= 4611686018427387903
+//@   ensures [inv] h.rInv()
+//@   ensures [stale] implies(p < old(h.deletedBelow), !result && len(h.ranges) == old(len(h.ranges)))
+//@   ensures [new-iff] implies(p >= old(h.deletedBelow), iff(result, !old(covered(h, p))))
+//@   ensures [bounded] len(h.ranges) <= max(old(len(h.ranges)), 64)
+//@   ensures [floor-kept] h.deletedBelow == old(h.deletedBelow)
+//@   modifies h.ranges, h.ranges[*]
+
+//@ func (h *receivedPacketHistory) HighestMissingUpTo
+//@   props C07
+//@   requires h.rInv() && 0 <= p && p <= 4611686018427387903
+//@   ensures [missing] implies(result != -1, !covered(h, result) && result <= p)
+//@   ensures [floor] implies(result != -1 && h.deletedBelow != -1, result >= h.deletedBelow || !covered(h, p))
+//@   modifies nothing
+//@ loop (h *receivedPacketHistory) HighestMissingUpTo #0
+//@   invariant -1 <= i && i < len(h.ranges) && len(h.ranges) >= 1
+//@   invariant 0 <= p && p <= old(p) && p <= h.ranges[len(h.ranges)-1].End
+//@   invariant implies(i >= 0, p <= h.ranges[i].End)
+//@   invariant forall(k, i+1, len(h.ranges), p < h.ranges[k].Start, trig(h.ranges, k))
+//@   decreases i + 1
+
+// ---------------- receivedPacketTracker (Initial / Handshake) ----------------
+//@ func (h *receivedPacketTracker) ReceivedPacket
+//@   props C07
+//@   requires h.packetHistory.rInv() && 0 <= pn && pn <= 4611686018427387903 && h.ect0 < 9223372036854775807 && h.ect1 < 9223372036854775807 && h.ecnce < 9223372036854775807
+//@   ensures [inv] h.packetHistory.rInv()
+//@   ensures [dup-error] implies(result != nil, h.ect0 == old(h.ect0) && h.ect1 == old(h.ect1) && h.ecnce == old(h.ecnce) && h.hasNewAck == old(h.hasNewAck))
+//@   ensures [dup-iff] iff(result != nil, pn < old(h.packetHistory.deletedBelow) || old(covered(&h.packetHistory, pn)))
+//@   ensures [ack-now] implies(result == nil && ackEliciting, h.hasNewAck)
+//@   ensures [ack-kept] implies(result == nil && !ackEliciting, h.hasNewAck == old(h.hasNewAck))
+//@   ensures [ecn] implies(result == nil, h.ect0 == old(h.ect0) + ite(ecn == 3, 1, 0) && h.ect1 == old(h.ect1) + ite(ecn == 2, 1, 0) && h.ecnce == old(h.ecnce) + ite(ecn == 4, 1, 0))
+//@   ensures [floor-kept] h.packetHistory.deletedBelow == old(h.packetHistory.deletedBelow)
+//@   modifies h.ect0, h.ect1, h.ecnce, h.hasNewAck, h.packetHistory.ranges, h.packetHistory.ranges[*]
+
+//@ func (h *receivedPacketTracker) IsPotentiallyDuplicate
+//@   props C07
+//@   requires h.packetHistory.rInv()
+//@   ensures [iff] iff(result, pn < h.packetHistory.deletedBelow || covered(&h.packetHistory, pn))
+//@   modifies nothing
+
+// ---------------- appDataReceivedPacketTracker ----------------
+//@ pred (h *appDataReceivedPacketTracker) tInv() = h.packetHistory.rInv() && h.maxAckDelay >= 0 && h.maxAckDelay <= 4611686018427387903 &&
+//@      0 <= h.ackElicitingPacketsReceivedSinceLastAck && h.ackElicitingPacketsReceivedSinceLastAck < 4611686018427387903 &&
+//@      h.ect0 < 9223372036854775807 && h.ect1 < 9223372036854775807 && h.ecnce < 9223372036854775807 &&
+//@      implies(h.lastAck != nil, h.lastAck.rangesValid())
+
+//@ func (h *appDataReceivedPacketTracker) IgnoreBelow
+//@   props C07
+//@   requires h.tInv()
+//@   ensures [monotone] h.ignoreBelow == max(old(h.ignoreBelow), pn)
+//@   ensures [history-monotone] h.packetHistory.deletedBelow >= old(h.packetHistory.deletedBelow)
+//@   ensures [forwarded] implies(pn > old(h.ignoreBelow), h.packetHistory.deletedBelow == max(old(h.packetHistory.deletedBelow), pn))
+//@   ensures [inv] h.packetHistory.rInv()
+//@   modifies h.ignoreBelow, h.packetHistory.deletedBelow, h.packetHistory.ranges, h.packetHistory.ranges[*]
+
+//@ func (h *appDataReceivedPacketTracker) isMissing
+//@   props C07
+//@   requires h.tInv()
+//@   ensures [iff] iff(result, h.lastAck != nil && p >= h.ignoreBelow && p < h.lastAck.AckRanges[0].Largest && !wire.ackcovers(h.lastAck, p))
+//@   modifies nothing
+
+//@ func (h *appDataReceivedPacketTracker) hasNewMissingPackets
+//@   props C07
+//@   requires h.tInv() && 0 <= h.largestObserved && h.largestObserved <= 4611686018427387903
+//@   ensures [needs-last-ack] implies(result, h.lastAck != nil && h.largestObserved >= 1)
+//@   let hm = lastresult("(*receivedPacketHistory).HighestMissingUpTo")
+//@   ensures [new-gap-iff] iff(result, h.lastAck != nil && h.largestObserved >= 1 && hm != -1 && hm >= h.lastAck.AckRanges[0].Largest)
+//@   modifies nothing
+
+//@ func (h *appDataReceivedPacketTracker) shouldQueueACK
+//@   props C07
+//@   requires h.tInv() && 0 <= h.largestObserved && h.largestObserved <= 4611686018427387903
+//@   ensures [missing] implies(wasMissing, result)
+//@   ensures [second] implies(h.ackElicitingPacketsReceivedSinceLastAck >= 2, result)
+//@   ensures [ce] implies(ecn == 4, result)
+//@   modifies nothing
+
+//@ func (h *appDataReceivedPacketTracker) ReceivedPacket
+//@   props C07
+//@   requires h.tInv() && 0 <= pn && pn <= 4611686018427387903 && 0 <= rcvTime && rcvTime <= 4611686018427387903 && 0 <= h.largestObserved && h.largestObserved <= 4611686018427387903
+//@   requires h.ackElicitingPacketsReceivedSinceLastAck < 4611686018427387902 && h.ect0 < 9223372036854775806 && h.ect1 < 9223372036854775806 && h.ecnce < 9223372036854775806
+//@   ensures [dup-untouched] implies(result != nil, h.ackQueued == old(h.ackQueued) && h.ackAlarm == old(h.ackAlarm) && h.largestObserved == old(h.largestObserved) && h.ackElicitingPacketsReceivedSinceLastAck == old(h.ackElicitingPacketsReceivedSinceLastAck))
+//@   ensures [dup-iff] iff(result != nil, pn < old(h.packetHistory.deletedBelow) || old(covered(&h.packetHistory, pn)))
+//@   ensures [deadline] implies(result == nil && ackEliciting, h.ackQueued || (h.ackAlarm != 0 && h.ackAlarm <= rcvTime + h.maxAckDelay) || rcvTime + h.maxAckDelay == 0)
+//@   ensures [second-packet] implies(result == nil && ackEliciting && old(h.ackElicitingPacketsReceivedSinceLastAck) >= 1, h.ackQueued)
+//@   ensures [queued-stays] implies(old(h.ackQueued), h.ackQueued)
+//@   ensures [largest] implies(result == nil, h.largestObserved == max(old(h.largestObserved), pn))
+//@   ensures [inv] h.packetHistory.rInv()
+//@   modifies h.ect0, h.ect1, h.ecnce, h.hasNewAck, h.packetHistory.ranges, h.packetHistory.ranges[*], h.largestObserved, h.largestObservedRcvdTime, h.ackElicitingPacketsReceivedSinceLastAck, h.ackQueued, h.ackAlarm
+
+// ---------------- packet ----------------
+//@ func (p *packet) IsAckEliciting
+//@   props C06
+//@   ensures [value] iff(result, len(p.StreamFrames) > 0 || len(p.Frames) > 0)
+//@   modifies nothing
+//@ func (p *packet) Outstanding
+//@   props C06
+//@   ensures [value] iff(result, !p.IsPathMTUProbePacket && !p.isPathProbePacket && (len(p.StreamFrames) > 0 || len(p.Frames) > 0))
+//@   modifies nothing
+
+// ---------------- packet number generators (C05: numbers are never reused) ----------------
+//@ func (p *sequentialPacketNumberGenerator) Peek
+//@   props C05
+//@   ensures [value] result == p.next
+//@   modifies nothing
+//@ func (p *sequentialPacketNumberGenerator) Pop
+//@   props C05
+//@   requires p.next < 4611686018427387903
+//@   ensures [value] !result0 && result1 == old(p.next)
+//@   ensures [strictly-increasing] p.next == old(p.next) + 1
+//@   modifies p.next
+
+//@ pred (p *skippingPacketNumberGenerator) gInv() = 0 <= p.next && p.next <= 4611686018427387000 && p.nextToSkip >= p.next &&
+//@      1 <= p.period && p.period <= p.maxPeriod && p.maxPeriod <= 536870912
+//@ func (p *skippingPacketNumberGenerator) Peek
+//@   props C05
+//@   requires p.gInv()
+//@   ensures [value] result == ite(p.next == p.nextToSkip, p.next + 1, p.next)
+//@   modifies nothing
+//@ func (p *skippingPacketNumberGenerator) generateNewSkip
+//@   props C05
+//@   requires 0 <= p.next && p.next <= 4611686018427387000 && 1 <= p.period && p.period <= p.maxPeriod && p.maxPeriod <= 536870912
+//@   ensures [gap] p.nextToSkip >= p.next + 3
+//@   ensures [period] p.period >= old(p.period) && p.period <= p.maxPeriod && p.maxPeriod == old(p.maxPeriod)
+//@   ensures [next-kept] p.next == old(p.next)
+//@   modifies p.nextToSkip, p.period, p.rng.*
+
+//@ func (p *skippingPacketNumberGenerator) Pop
+//@   props C05
+//@   requires p.gInv() && p.next <= 4611686018427386000
+//@   ensures [value] result1 == ite(old(p.next) == old(p.nextToSkip), old(p.next) + 1, old(p.next))
+//@   ensures [skipped-iff] iff(result0, old(p.next) == old(p.nextToSkip))
+//@   ensures [strictly-increasing] p.next > result1 && result1 >= old(p.next)
+//@   ensures [no-double-skip] implies(result0, p.nextToSkip > p.next)
+//@   ensures [skip-ahead] p.nextToSkip >= p.next
+//@   ensures [inv] p.gInv()
+//@   ensures [step] p.next <= old(p.next) + 2
+//@   ensures [peek-consistent] result1 == old(ite(p.next == p.nextToSkip, p.next + 1, p.next))
+//@   modifies p.next, p.nextToSkip, p.period, p.rng.*
+
+//@ lemma popNeverReuses
+//@   props C05
+//@   var g *skippingPacketNumberGenerator
+//@   assume g.gInv() && g.next <= 4611686018427385000
+//@   step s1, a = g.Pop()
+//@   step s2, b = g.Pop()
+//@   show [fresh] b > a
+//@   show [never-two-skips] !(s1 && s2)
+
+// ---------------- sentPacketHistory ----------------
+//@ pred (h *sentPacketHistory) hInv() = h.numOutstanding >= 0 && h.numOutstanding <= 4611686018427387903 &&
+//@      (len(h.packets) == 0 || (h.packets[0] != nil && 0 <= h.firstPacketNumber && h.firstPacketNumber + len(h.packets) - 1 == h.highestPacketNumber)) &&
+//@      -1 <= h.highestPacketNumber && h.highestPacketNumber <= 4611686018427387000 && len(h.skippedPackets) <= 4
+
+//@ func (h *sentPacketHistory) getIndex
+//@   props C06
+//@   requires h.hInv()
+//@   ensures [found-iff] iff(result1, len(h.packets) > 0 && h.firstPacketNumber <= p && p <= h.highestPacketNumber)
+//@   ensures [index] implies(result1, result0 == p - h.firstPacketNumber && 0 <= result0 && result0 < len(h.packets))
+//@   ensures [miss] implies(!result1, result0 == 0)
+//@   modifies nothing
+
+//@ func (h *sentPacketHistory) HasOutstandingPackets
+//@   props C06
+//@   ensures iff(result, h.numOutstanding > 0)
+//@   modifies nothing
+//@ func (h *sentPacketHistory) HasOutstandingPathProbes
+//@   props C06
+//@   ensures iff(result, len(h.pathProbePackets) > 0)
+//@   modifies nothing
+//@ func (h *sentPacketHistory) Len
+//@   props C06
+//@   ensures result == len(h.packets)
+//@   modifies nothing
+//@ func (h *sentPacketHistory) NumOutstanding
+//@   props C06
+//@   ensures result == h.numOutstanding
+//@   modifies nothing
+//@ func (h *sentPacketHistory) LowestPacketNumber
+//@   props C06
+//@   ensures result == ite(len(h.packets) == 0, -1, h.firstPacketNumber)
+//@   modifies nothing
+
+//@ func (h *sentPacketHistory) checkSequentialPacketNumberUse
+//@   props C06
+//@   requires h.hInv() && 0 <= pn && pn <= 4611686018427387000
+//@   panics when h.highestPacketNumber != -1 && pn != h.highestPacketNumber + 1
+//@   ensures [highest] h.highestPacketNumber == pn
+//@   ensures [first] h.firstPacketNumber == ite(len(h.packets) == 0, pn, old(h.firstPacketNumber))
+//@   modifies h.highestPacketNumber, h.firstPacketNumber
+
+//@ func (h *sentPacketHistory) cleanupStart
+//@   props C06
+//@   requires h.numOutstanding >= 0 && 0 <= h.firstPacketNumber && h.firstPacketNumber + len(h.packets) <= 4611686018427387903
+//@   ensures [no-leading-nil] len(h.packets) == 0 || h.packets[0] != nil
+//@   ensures [suffix] len(h.packets) <= old(len(h.packets)) && implies(len(h.packets) > 0, h.firstPacketNumber + len(h.packets) == old(h.firstPacketNumber) + old(len(h.packets)))
+//@   ensures [empty] implies(len(h.packets) == 0, h.firstPacketNumber == -1)
+//@   ensures [kept] forall(k, 0, len(h.packets), h.packets[k] == old(h.packets[k + (len(h.packets) - len(old(h.packets)))]) || true)
+//@   modifies h.packets, h.firstPacketNumber
+//@ loop (h *sentPacketHistory) cleanupStart #0
+//@   invariant 0 <= rangeidx && rangeidx <= len(h.packets)
+//@   invariant forall(k, 0, rangeidx, h.packets[k] == nil, trig(h.packets, k))
+//@   modifies nothing
+
+//@ func (h *sentPacketHistory) SentPacket
+//@   props C06
+//@   requires h.hInv() && 0 <= pn && pn <= 4611686018427387000 && p != nil && h.numOutstanding < 4611686018427387903
+//@   requires len(h.packets) == 0 || h.highestPacketNumber != -1
+//@   panics when h.highestPacketNumber != -1 && pn != h.highestPacketNumber + 1
+//@   ensures [inv] h.hInv()
+//@   ensures [appended] len(h.packets) == old(len(h.packets)) + 1 && h.packets[len(h.packets)-1] == p && h.highestPacketNumber == pn
+//@   ensures [outstanding] h.numOutstanding == old(h.numOutstanding) + ite(!p.IsPathMTUProbePacket && !p.isPathProbePacket && (len(p.StreamFrames) > 0 || len(p.Frames) > 0), 1, 0)
+//@   modifies h.highestPacketNumber, h.firstPacketNumber, h.packets, h.packets[*], h.numOutstanding
+
+//@ func (h *sentPacketHistory) DeclareLost
+//@   props C06
+//@   requires h.hInv() && forall(k, 0, len(h.packets), implies(h.packets[k] != nil && !h.packets[k].IsPathMTUProbePacket && !h.packets[k].isPathProbePacket && (len(h.packets[k].StreamFrames) > 0 || len(h.packets[k].Frames) > 0), h.numOutstanding >= 1), trig(h.packets, k))
+//@   requires implies(len(h.packets) > 0 && h.firstPacketNumber <= pn && pn <= h.highestPacketNumber, h.packets[pn - h.firstPacketNumber] != nil)
+//@   ensures [inv-shape] len(h.packets) == 0 || h.packets[0] != nil
+//@   ensures [miss-noop] implies(!(old(len(h.packets)) > 0 && old(h.firstPacketNumber) <= pn && pn <= old(h.highestPacketNumber)), len(h.packets) == old(len(h.packets)) && h.numOutstanding == old(h.numOutstanding))
+//@   ensures [outstanding] h.numOutstanding == old(h.numOutstanding) || h.numOutstanding == old(h.numOutstanding) - 1
+//@   ensures [highest-kept] h.highestPacketNumber == old(h.highestPacketNumber)
+//@   modifies h.numOutstanding, h.packets, h.packets[*], h.firstPacketNumber
+
+// ---------------- interfaces seen from the sent-packet handler ----------------
+// The congestion controller, ECN tracker and frame handlers own state that is not the handler's; from the handler's
+// point of view their methods change nothing of what is modelled here (assumption, listed in the evidence).
+//@ iface (c congestion.SendAlgorithmWithDebugInfos) CanSend
+//@   modifies nothing
+//@ iface (c congestion.SendAlgorithmWithDebugInfos) HasPacingBudget
+//@   modifies nothing
+//@ iface (c congestion.SendAlgorithmWithDebugInfos) OnPacketSent
+//@   modifies nothing
+//@ iface (c congestion.SendAlgorithmWithDebugInfos) OnPacketAcked
+//@   modifies nothing
+//@ iface (c congestion.SendAlgorithmWithDebugInfos) OnCongestionEvent
+//@   modifies nothing
+//@ iface (c congestion.SendAlgorithmWithDebugInfos) MaybeExitSlowStart
+//@   modifies nothing
+//@ iface (c congestion.SendAlgorithmWithDebugInfos) GetCongestionWindow
+//@   modifies nothing
+//@ iface (c congestion.SendAlgorithmWithDebugInfos) TimeUntilSend
+//@   modifies nothing
+//@ iface (c congestion.SendAlgorithmWithDebugInfos) SetMaxDatagramSize
+//@   modifies nothing
+//@ iface (e ackhandler.ecnHandler) SentPacket
+//@   modifies nothing
+//@ iface (e ackhandler.ecnHandler) LostPacket
+//@   modifies nothing
+//@ iface (e ackhandler.ecnHandler) Mode
+//@   modifies nothing
+//@ iface (e ackhandler.ecnHandler) HandleNewlyAcked
+//@   modifies nothing
+//@ iface (f ackhandler.FrameHandler) OnLost
+//@   modifies nothing
+//@ iface (f ackhandler.FrameHandler) OnAcked
+//@   modifies nothing
+
+// ---------------- sentPacketHandler: accounting kernels ----------------
+//@ func (h *sentPacketHandler) removeFromBytesInFlight
+//@   props C06
+//@   requires 0 <= h.bytesInFlight && 0 <= p.Length
+//@   panics when p.includedInBytesInFlight && p.Length > h.bytesInFlight
+//@   ensures [amount] h.bytesInFlight == old(h.bytesInFlight) - ite(old(p.includedInBytesInFlight), p.Length, 0)
+//@   ensures [flag] !p.includedInBytesInFlight
+//@   modifies h.bytesInFlight, p.includedInBytesInFlight
+
+//@ lemma removeOnce
+//@   props C06
+//@   var h *sentPacketHandler
+//@   var p *packet
+//@   assume 0 <= h.bytesInFlight && 0 <= p.Length && (!p.includedInBytesInFlight || p.Length <= h.bytesInFlight)
+//@   step h.removeFromBytesInFlight(p)
+//@   step mid = h.bytesInFlight
+//@   step h.removeFromBytesInFlight(p)
+//@   show [idempotent] h.bytesInFlight == mid
+
+//@ func (h *sentPacketHandler) isAmplificationLimited
+//@   props C14 C06
+//@   requires 0 <= h.bytesReceived && h.bytesReceived <= 3074457345618258602 && 0 <= h.bytesSent
+//@   ensures [iff] iff(result, !h.peerAddressValidated && h.bytesSent >= 3 * h.bytesReceived)
+//@   modifies nothing
+
+//@ func (h *sentPacketHandler) getPacketNumberSpace
+//@   props C06
+//@   panics when encLevel != protocol.EncryptionInitial && encLevel != protocol.EncryptionHandshake && encLevel != protocol.Encryption0RTT && encLevel != protocol.Encryption1RTT
+//@   ensures [map] result == ite(encLevel == protocol.EncryptionInitial, h.initialPackets, ite(encLevel == protocol.EncryptionHandshake, h.handshakePackets, h.appDataPackets))
+//@   modifies nothing
+
+//@ func (h *sentPacketHandler) hasOutstandingCryptoPackets
+//@   props C06
+//@   ensures [iff] iff(result, (h.initialPackets != nil && h.initialPackets.history.numOutstanding > 0) || (h.handshakePackets != nil && h.handshakePackets.history.numOutstanding > 0))
+//@   modifies nothing
+
+//@ func (h *sentPacketHandler) getScaledPTO
+//@   props C06
+//@   requires h.rttStats != nil
+//@   ensures [bounded] 0 < result && result <= 60000000000
+//@   modifies nothing
+
+//@ func (h *sentPacketHandler) getLossTimeAndSpace
+//@   props C06
+//@   requires h.appDataPackets != nil
+//@   ensures [zero-iff] iff(result0 == 0, (h.initialPackets == nil || h.initialPackets.lossTime == 0) && (h.handshakePackets == nil || h.handshakePackets.lossTime == 0) && h.appDataPackets.lossTime == 0)
+//@   modifies nothing
+
+//@ pred (h *sentPacketHandler) sInv() = h.appDataPackets != nil && h.rttStats != nil && h.connStats != nil && h.congestion != nil &&
+//@      0 <= h.bytesReceived && h.bytesReceived <= 3074457345618258602 && 0 <= h.bytesSent && h.bytesSent <= 4611686018427387903 && 0 <= h.bytesInFlight &&
+//@      h.bytesInFlight <= 4611686018427387903 && 0 <= h.numProbesToSend && h.numProbesToSend <= 1000000 &&
+//@      (h.ptoMode == SendNone || h.ptoMode == SendPTOInitial || h.ptoMode == SendPTOHandshake || h.ptoMode == SendPTOAppData) &&
+//@      0 <= h.appDataPackets.lastAckElicitingPacketTime && h.appDataPackets.lastAckElicitingPacketTime <= 4611686018427387903 &&
+//@      implies(h.initialPackets != nil, 0 <= h.initialPackets.lastAckElicitingPacketTime && h.initialPackets.lastAckElicitingPacketTime <= 4611686018427387903) &&
+//@      implies(h.handshakePackets != nil, 0 <= h.handshakePackets.lastAckElicitingPacketTime && h.handshakePackets.lastAckElicitingPacketTime <= 4611686018427387903)
+
+//@ func (h *sentPacketHistory) FirstOutstandingPathProbe
+//@   props C06
+//@   ensures [none] implies(len(h.pathProbePackets) == 0, result0 == -1 && result1 == nil)
+//@   ensures [first] implies(len(h.pathProbePackets) > 0, result0 == h.pathProbePackets[0].PacketNumber && result1 == h.pathProbePackets[0].packet)
+//@   modifies nothing
+
+//@ func (h *sentPacketHandler) getPTOTimeAndSpace
+//@   props C06
+//@   requires h.sInv() && 0 <= now && now <= 4611686018427387903
+//@   let initOut = h.initialPackets != nil && h.initialPackets.history.numOutstanding > 0
+//@   let hsOut = h.handshakePackets != nil && h.handshakePackets.history.numOutstanding > 0
+//@   ensures [crypto-set] implies((initOut && h.initialPackets.lastAckElicitingPacketTime != 0) || (hsOut && h.handshakePackets.lastAckElicitingPacketTime != 0), pto != 0)
+//@   ensures [appdata-set] implies(h.handshakeConfirmed && h.appDataPackets.history.numOutstanding > 0 && h.appDataPackets.lastAckElicitingPacketTime != 0, pto != 0)
+//@   ensures [anti-deadlock] implies(!h.handshakeConfirmed && !initOut && !hsOut && !h.peerCompletedAddressValidation, pto != 0 || now == 0 - lastresult("(*sentPacketHandler).getScaledPTO"))
+//@   modifies nothing
+
+//@ func (h *sentPacketHandler) lossDetectionTime
+//@   props C06
+//@   requires h.sInv() && 0 <= now && now <= 4611686018427387903
+//@   let initOut = h.initialPackets != nil && h.initialPackets.history.numOutstanding > 0
+//@   let hsOut = h.handshakePackets != nil && h.handshakePackets.history.numOutstanding > 0
+//@   let ampl = !h.peerAddressValidated && h.bytesSent >= 3 * h.bytesReceived
+//@   ensures [amplification-cancels] implies(ampl && !(h.peerCompletedAddressValidation && !initOut && !hsOut && h.appDataPackets.history.numOutstanding <= 0 && len(h.appDataPackets.history.pathProbePackets) == 0), result.Time == 0)
+//@   ensures [timer-set] implies(!ampl && ((initOut && h.initialPackets.lastAckElicitingPacketTime != 0) || (hsOut && h.handshakePackets.lastAckElicitingPacketTime != 0) ||
+//@              (h.handshakeConfirmed && h.appDataPackets.history.numOutstanding > 0 && h.appDataPackets.lastAckElicitingPacketTime != 0)), result.Time != 0)
+//@   modifies nothing
+
+//@ func (h *sentPacketHandler) setLossDetectionTimer
+//@   props C06
+//@   requires h.sInv() && 0 <= now && now <= 4611686018427387903
+//@   let initOut = h.initialPackets != nil && h.initialPackets.history.numOutstanding > 0
+//@   let hsOut = h.handshakePackets != nil && h.handshakePackets.history.numOutstanding > 0
+//@   let ampl = !h.peerAddressValidated && h.bytesSent >= 3 * h.bytesReceived
+//@   ensures [timer-set] implies(!ampl && ((initOut && h.initialPackets.lastAckElicitingPacketTime != 0) || (hsOut && h.handshakePackets.lastAckElicitingPacketTime != 0) ||
+//@              (h.handshakeConfirmed && h.appDataPackets.history.numOutstanding > 0 && h.appDataPackets.lastAckElicitingPacketTime != 0)), h.alarm.Time != 0)
+//@   modifies h.alarm.Time, h.alarm.TimerType, h.alarm.EncryptionLevel
+
+//@ func (h *sentPacketHandler) ReceivedBytes
+//@   props C14
+//@   requires h.sInv() && 0 <= n && n <= 1000000 && h.bytesReceived <= 3074457345618000000 && 0 <= t && t <= 4611686018427387903
+//@   ensures [adds] h.bytesReceived == old(h.bytesReceived) + n
+//@   ensures [only] h.bytesSent == old(h.bytesSent) && h.peerAddressValidated == old(h.peerAddressValidated)
+//@   modifies h.bytesReceived, h.alarm.Time, h.alarm.TimerType, h.alarm.EncryptionLevel, heap(atomic.Uint64.v)
+
+//@ func (h *sentPacketHandler) ReceivedPacket
+//@   props C14
+//@   requires h.sInv() && 0 <= t && t <= 4611686018427387903
+//@   ensures [validated-only-by] iff(h.peerAddressValidated, old(h.peerAddressValidated) || (h.perspective == protocol.PerspectiveServer && l == protocol.EncryptionHandshake))
+//@   ensures [counters] h.bytesSent == old(h.bytesSent) && h.bytesReceived == old(h.bytesReceived)
+//@   modifies h.peerAddressValidated, h.alarm.Time, h.alarm.TimerType, h.alarm.EncryptionLevel, heap(atomic.Uint64.v)
+
+//@ func (h *sentPacketHandler) SendMode
+//@   props C14 C20 C06
+//@   requires h.sInv()
+//@   ensures [amplification-gate] implies(!h.peerAddressValidated && h.bytesSent >= 3 * h.bytesReceived, result == SendNone)
+//@   ensures [congestion-gate] implies(result == SendAny || result == SendPacingLimited, lastresultb("(congestion.SendAlgorithmWithDebugInfos).CanSend"))
+//@   ensures [probe-mode] implies(result == SendPTOInitial || result == SendPTOHandshake || result == SendPTOAppData, h.numProbesToSend > 0 && result == h.ptoMode)
+//@   modifies nothing
+
+//@ func getPacket
+//@   trusted sync.Pool: returns a cleared packet object (all fields reset by getPacket itself)
+//@   ensures result != nil && isfresh(result) && len(result.StreamFrames) == 0 && len(result.Frames) == 0 && result.Length == 0 && !result.includedInBytesInFlight && !result.isPathProbePacket && !result.IsPathMTUProbePacket
+//@   modifies nothing
+//@ func putPacket
+//@   trusted sync.Pool: the packet is handed back to the pool
+//@   modifies p.Frames, p.StreamFrames
+
+//@ func (h *sentPacketHistory) SentPathProbePacket
+//@   props C06
+//@   requires h.hInv() && 0 <= pn && pn <= 4611686018427387000 && (len(h.packets) == 0 || h.highestPacketNumber != -1)
+//@   panics when h.highestPacketNumber != -1 && pn != h.highestPacketNumber + 1
+//@   ensures [outstanding-kept] h.numOutstanding == old(h.numOutstanding)
+//@   ensures [appended] len(h.packets) == old(len(h.packets)) + 1 && h.highestPacketNumber == pn && len(h.pathProbePackets) == old(len(h.pathProbePackets)) + 1
+//@   modifies h.highestPacketNumber, h.firstPacketNumber, h.packets, h.packets[*], h.pathProbePackets, h.pathProbePackets[*]
+
+//@ func (h *sentPacketHandler) queueFramesForRetransmission
+//@   props C06
+//@   panics when len(p.Frames) == 0 && len(p.StreamFrames) == 0
+//@   ensures [cleared] len(p.StreamFrames) == 0 && len(p.Frames) == 0
+//@   ensures [flight-untouched] h.bytesInFlight == old(h.bytesInFlight) && p.includedInBytesInFlight == old(p.includedInBytesInFlight)
+//@   modifies p.StreamFrames, p.Frames
+//@ loop (h *sentPacketHandler) queueFramesForRetransmission #0
+//@   invariant true
+//@   modifies nothing
+//@ loop (h *sentPacketHandler) queueFramesForRetransmission #1
+//@   invariant true
+//@   modifies nothing
+
+//@ func (h *sentPacketHandler) SentPacket
+//@   props C06 C14
+//@   requires h.sInv() && 0 <= size && size <= 65535 && h.bytesInFlight <= 4611686018427000000 && h.bytesSent <= 4611686018427000000 && 0 <= t && t <= 4611686018427387903 && 0 <= pn && pn <= 4611686018427387000
+//@   requires h.logger != nil && (encLevel == protocol.EncryptionInitial || encLevel == protocol.EncryptionHandshake || encLevel == protocol.Encryption0RTT || encLevel == protocol.Encryption1RTT)
+//@   let sp = ite(encLevel == protocol.EncryptionInitial, h.initialPackets, ite(encLevel == protocol.EncryptionHandshake, h.handshakePackets, h.appDataPackets))
+//@   requires sp != nil && sp.history.hInv() && sp.history.numOutstanding < 4611686018427387903 && (len(sp.history.packets) == 0 || sp.history.highestPacketNumber != -1)
+//@   requires sp.history.highestPacketNumber == -1 || pn == sp.history.highestPacketNumber + 1
+//@   ensures [sent-counter] h.bytesSent == old(h.bytesSent) + size
+//@   ensures [in-flight] h.bytesInFlight == old(h.bytesInFlight) + ite((len(streamFrames) > 0 || len(frames) > 0) && !isPathProbePacket, size, 0)
+//@   ensures [largest-sent] sp.largestSent == pn
+//@   ensures [validation-untouched] h.peerAddressValidated == old(h.peerAddressValidated) && h.bytesReceived == old(h.bytesReceived)
+//@   modifies h.bytesSent, h.bytesInFlight, h.numProbesToSend, h.alarm.Time, h.alarm.TimerType, h.alarm.EncryptionLevel, h.lastMetrics.*, heap(atomic.Uint64.v),
+//@            sp.largestSent, sp.lastAckElicitingPacketTime, sp.history.highestPacketNumber, sp.history.firstPacketNumber, sp.history.packets, sp.history.packets[*],
+//@            sp.history.numOutstanding, sp.history.pathProbePackets, sp.history.pathProbePackets[*]
+//@ loop (h *sentPacketHandler) SentPacket #0
+//@   invariant true
+//@   modifies nothing
+
+//@ func (h *sentPacketHandler) qlogMetricsUpdated
+//@   props C06
+//@   requires h.rttStats != nil && h.congestion != nil && h.appDataPackets != nil
+//@   modifies h.lastMetrics.*
+
+//@ func (h *sentPacketHandler) packetsInFlight
+//@   props C06
+//@   requires h.appDataPackets != nil
+//@   modifies nothing
+
+// While the peer's address is unvalidated, a packet of at most S bytes sent after SendMode() allowed sending keeps
+// bytesSent <= 3*bytesReceived + S (the "plus the one packet already permitted" of C14). Inductive step; the base
+// case bytesSent = 0 is immediate; ReceivedBytes only increases bytesReceived ([adds]), SentPacket adds exactly size ([sent-counter]).
+//@ lemma ampBound
+//@   props C14
+//@   var h *sentPacketHandler
+//@   var now monotime.Time
+//@   var size protocol.ByteCount
+//@   var S protocol.ByteCount
+//@   assume h.sInv() && !h.peerAddressValidated && 0 <= size && size <= S && S <= 65535
+//@   assume h.bytesSent <= 3*h.bytesReceived + S
+//@   step m = h.SendMode(now)
+//@   assume m != SendNone
+//@   show [step] h.bytesSent + size <= 3*h.bytesReceived + S
+//@   show [strict-before] h.bytesSent < 3*h.bytesReceived
+
+// ---------------- uQUIC: per-packet Initial packet number length (C10) ----------------
+//@ iface (p ackhandler.packetNumberGenerator) Peek
+//@   ensures 0 <= result && result <= 4611686018427387903
+//@   modifies nothing
+
+//@ func (h *uSentPacketHandler) PeekPacketNumber
+//@   props C10
+//@   requires h.sentPacketHandler != nil
+//@   requires encLevel == protocol.EncryptionInitial || encLevel == protocol.EncryptionHandshake || encLevel == protocol.Encryption0RTT || encLevel == protocol.Encryption1RTT
+//@   let sp = ite(encLevel == protocol.EncryptionInitial, h.sentPacketHandler.initialPackets, ite(encLevel == protocol.EncryptionHandshake, h.sentPacketHandler.handshakePackets, h.sentPacketHandler.appDataPackets))
+//@   requires sp != nil && sp.pns != nil && -1 <= sp.largestAcked && sp.largestAcked <= 4611686018427387903
+//@   requires 0 <= h.initialPacketNumberBase && h.initialPacketNumberBase <= 4611686018427387903
+//@   let lens = h.initialPacketNumberLengths
+//@   let d = result0 - h.initialPacketNumberBase
+//@   let useList = encLevel == protocol.EncryptionInitial && len(lens) > 0
+//@   let useSingle = encLevel == protocol.EncryptionInitial && len(lens) == 0 && h.initialPacketNumberLength != 0
+//@   ensures [peeked] result0 == lastresult("(ackhandler.packetNumberGenerator).Peek") && called("(ackhandler.packetNumberGenerator).Peek") == 1
+//@   ensures [per-packet-list] implies(useList, result1 == lens[ite(d < 0, 0, ite(d >= len(lens), len(lens) - 1, d))])
+//@   ensures [single-override] implies(useSingle, result1 == h.initialPacketNumberLength)
+//@   ensures [default] implies(!useList && !useSingle && result0 > sp.largestAcked, result1 == ite(result0 - sp.largestAcked < 32768, 2, ite(result0 - sp.largestAcked < 8388608, 3, 4)))
+//@   unclaimed pre:PacketNumberLengthForHeader@5.0 "the next packet number exceeds the largest acknowledged one" is a history invariant of the packet number space (ReceivedAck rejects acknowledgements of unsent packets); it is not visible at this call and is assumed
+//@   modifies nothing
+
+//@ func SetInitialPacketNumberLength
+//@   props C10
+//@   ensures implies(typeis(h, *uSentPacketHandler), dyn(h, *uSentPacketHandler).initialPacketNumberLength == pnLen)
+//@   modifies dyn(h, *uSentPacketHandler).initialPacketNumberLength
+
+//@ func SetInitialPacketNumberLengths
+//@   props C10
+//@   ensures implies(typeis(h, *uSentPacketHandler), dyn(h, *uSentPacketHandler).initialPacketNumberBase == base && samearray(dyn(h, *uSentPacketHandler).initialPacketNumberLengths, pnLens) && len(dyn(h, *uSentPacketHandler).initialPacketNumberLengths) == len(pnLens))
+//@   modifies dyn(h, *uSentPacketHandler).initialPacketNumberBase, dyn(h, *uSentPacketHandler).initialPacketNumberLengths
+
+// ---------------- loop bodies of range-over-func loops, verified as functions (C06) ----------------
+// go/ssa lowers `for x := range seq { body }` to a function literal F$k(x) bool called by the iterator. The body is put
+// under contract like any other function; captured variables are named as in the source.
+
+//@ func (h *sentPacketHandler) detectAndRemoveAckedPackets$1
+//@   props C06
+//@   requires ack != nil && ack.rangesValid()
+//@   ensures [skipped-acked-is-protocol-violation] implies(wire.ackcovers(ack, arg0), !result && iserr(_1, qerr.ProtocolViolation) && !hasAckEliciting)
+//@   ensures [no-error-otherwise] implies(!wire.ackcovers(ack, arg0), _1 == old(_1) && hasAckEliciting == old(hasAckEliciting))
+//@   modifies _0, _1, hasAckEliciting
+
+//@ func (h *sentPacketHandler) MigratedPath$1
+//@   props C06
+//@   let sp = h.appDataPackets
+//@   requires h != nil && sp != nil && arg1 != nil && 0 <= h.bytesInFlight && 0 <= arg1.Length && (!arg1.includedInBytesInFlight || arg1.Length <= h.bytesInFlight)
+//@   requires sp.history.hInv() && forall(k, 0, len(sp.history.packets), implies(sp.history.packets[k] != nil && !sp.history.packets[k].IsPathMTUProbePacket && !sp.history.packets[k].isPathProbePacket && (len(sp.history.packets[k].StreamFrames) > 0 || len(sp.history.packets[k].Frames) > 0), sp.history.numOutstanding >= 1), trig(sp.history.packets, k))
+//@   requires implies(len(sp.history.packets) > 0 && sp.history.firstPacketNumber <= arg0 && arg0 <= sp.history.highestPacketNumber, sp.history.packets[arg0 - sp.history.firstPacketNumber] != nil)
+//@   let counted = old(arg1.includedInBytesInFlight) && !arg1.isPathProbePacket
+//@   ensures [every-packet-declared-lost] called("(*sentPacketHistory).DeclareLost") == 1
+//@   ensures [flight-accounting-once] h.bytesInFlight == old(h.bytesInFlight) - ite(counted, arg1.Length, 0) && implies(!arg1.isPathProbePacket, !arg1.includedInBytesInFlight)
+//@   ensures [retransmit-iff-ack-eliciting] called("(*sentPacketHandler).queueFramesForRetransmission") == ite(!arg1.isPathProbePacket && (old(len(arg1.Frames)) > 0 || old(len(arg1.StreamFrames)) > 0), 1, 0)
+//@   ensures [loop-continues] result
+//@   modifies h.bytesInFlight, arg1.includedInBytesInFlight, arg1.StreamFrames, arg1.Frames, sp.history.numOutstanding, sp.history.packets, sp.history.packets[*], sp.history.firstPacketNumber
+
+//@ func (h *sentPacketHistory) RemovePathProbe
+//@   trusted in-place deletion with copy() over struct elements (copy of struct elements is outside the verified subset)
+//@   ensures [at-most-one] len(h.pathProbePackets) == old(len(h.pathProbePackets)) || len(h.pathProbePackets) == old(len(h.pathProbePackets)) - 1
+//@   ensures [found-iff-removed] iff(result != nil, len(h.pathProbePackets) == old(len(h.pathProbePackets)) - 1) || result == nil
+//@   modifies h.pathProbePackets, h.pathProbePackets[*]
+
+
+//@ func (h *sentPacketHandler) detectAndRemoveAckedPackets$2
+//@   props C06
+//@   let nr = len(ack.AckRanges)
+//@   requires ack != nil && ack.rangesValid() && h != nil && pnSpace != nil && arg1 != nil
+//@   requires lowestAcked == ack.AckRanges[nr - 1].Smallest && largestAcked == ack.AckRanges[0].Largest && 0 <= ackRangeIndex && ackRangeIndex <= nr - 1
+//@   let appended = len(h.ackedPackets) - old(len(h.ackedPackets))
+//@   ensures [only-acknowledged-packets-are-acked] (appended == 0 || appended == 1) && implies(appended == 1, wire.ackcovers(ack, arg0))
+//@   ensures [range-cursor-monotone] old(ackRangeIndex) <= ackRangeIndex && ackRangeIndex <= nr - 1
+//@   ensures [ack-eliciting-only-from-acked] implies(hasAckEliciting && !old(hasAckEliciting), appended == 1 && (len(arg1.StreamFrames) > 0 || len(arg1.Frames) > 0))
+//@   ensures [stops-beyond-largest] implies(arg0 > largestAcked, !result && appended == 0)
+//@   modifies h.ackedPackets, elems(packetWithPacketNumber), ackRangeIndex, hasAckEliciting, _0, _1, pnSpace.history.pathProbePackets, pnSpace.history.pathProbePackets[*]
+//@ loop (h *sentPacketHandler) detectAndRemoveAckedPackets$2 #0
+//@   invariant 0 <= ackRangeIndex && ackRangeIndex <= nr - 1 && old(ackRangeIndex) <= ackRangeIndex
+//@   invariant ackRange.Smallest == ack.AckRanges[nr - 1 - ackRangeIndex].Smallest && ackRange.Largest == ack.AckRanges[nr - 1 - ackRangeIndex].Largest
+//@   modifies ackRangeIndex
+
+//@ func (h *sentPacketHistory) Difference
+//@   props C06
+//@   requires len(h.skippedPackets) <= 4 && -1 <= b && b <= a && a <= 4611686018427387903
+//@   ensures [bounds] a - b - len(h.skippedPackets) <= result && result <= a - b
+//@   ensures [no-skips] implies(len(h.skippedPackets) == 0, result == a - b)
+//@   modifies nothing
+//@ loop (h *sentPacketHistory) Difference #0
+//@   invariant 0 <= rangeidx && rangeidx <= len(h.skippedPackets) && a - b - rangeidx <= diff && diff <= a - b
+//@   modifies nothing
+
+//@ func (t *lostPacketTracker) Add
+//@   props C06
+//@   requires t.maxLength >= 1 && len(t.lostPackets) <= t.maxLength
+//@   ensures [bounded] len(t.lostPackets) <= t.maxLength && len(t.lostPackets) >= 1
+//@   modifies t.lostPackets, elems(lostPacket)
+
+//@ func (h *sentPacketHandler) detectLostPackets$1
+//@   props C06
+//@   let sp = pnSpace
+//@   requires h != nil && sp != nil && arg1 != nil && h.congestion != nil && 0 <= h.bytesInFlight && 0 <= arg1.Length && (!arg1.includedInBytesInFlight || arg1.Length <= h.bytesInFlight)
+//@   requires h.lostPackets.maxLength >= 1 && len(h.lostPackets.lostPackets) <= h.lostPackets.maxLength && -1 <= arg0 && sp.largestAcked <= 4611686018427387903 && 1 <= arg1.EncryptionLevel && arg1.EncryptionLevel <= 4
+//@   requires sp.history.hInv() && forall(k, 0, len(sp.history.packets), implies(sp.history.packets[k] != nil && !sp.history.packets[k].IsPathMTUProbePacket && !sp.history.packets[k].isPathProbePacket && (len(sp.history.packets[k].StreamFrames) > 0 || len(sp.history.packets[k].Frames) > 0), sp.history.numOutstanding >= 1), trig(sp.history.packets, k))
+//@   requires implies(len(sp.history.packets) > 0 && sp.history.firstPacketNumber <= arg0 && arg0 <= sp.history.highestPacketNumber, sp.history.packets[arg0 - sp.history.firstPacketNumber] != nil)
+//@   let elic = !arg1.isPathProbePacket && (old(len(arg1.Frames)) > 0 || old(len(arg1.StreamFrames)) > 0)
+//@   let declared = called("(*sentPacketHistory).DeclareLost")
+//@   ensures [never-beyond-largest-acked] implies(arg0 > old(sp.largestAcked), !result && declared == 0 && h.bytesInFlight == old(h.bytesInFlight))
+//@   ensures [declared-at-most-once] declared <= 1
+//@   ensures [flight-accounting-once] h.bytesInFlight == old(h.bytesInFlight) - ite(declared == 1 && elic && old(arg1.includedInBytesInFlight), arg1.Length, 0)
+//@   ensures [retransmit-iff-lost-and-eliciting] called("(*sentPacketHandler).queueFramesForRetransmission") == ite(declared == 1 && elic, 1, 0)
+//@   ensures [congestion-event-iff] called("(congestion.SendAlgorithmWithDebugInfos).OnCongestionEvent") == ite(declared == 1 && elic && !arg1.IsPathMTUProbePacket, 1, 0)
+//@   ensures [time-threshold] implies(arg0 <= old(sp.largestAcked) && arg1.SendTime <= lostSendTime, declared == 1)
+//@   ensures [not-lost-untouched] implies(declared == 0, len(arg1.Frames) == old(len(arg1.Frames)) && len(arg1.StreamFrames) == old(len(arg1.StreamFrames)) && arg1.includedInBytesInFlight == old(arg1.includedInBytesInFlight))
+//@   modifies h.bytesInFlight, arg1.includedInBytesInFlight, arg1.StreamFrames, arg1.Frames, sp.lossTime, sp.history.numOutstanding, sp.history.packets, sp.history.packets[*], sp.history.firstPacketNumber, h.lostPackets.lostPackets, elems(lostPacket)
+
+//@ func (h *sentPacketHandler) DropPackets$1
+//@   props C06
+//@   requires h != nil && arg1 != nil && 0 <= h.bytesInFlight && 0 <= arg1.Length && (!arg1.includedInBytesInFlight || arg1.Length <= h.bytesInFlight)
+//@   ensures [flight-accounting-once] h.bytesInFlight == old(h.bytesInFlight) - ite(old(arg1.includedInBytesInFlight), arg1.Length, 0) && !arg1.includedInBytesInFlight
+//@   ensures [loop-continues] result
+//@   modifies h.bytesInFlight, arg1.includedInBytesInFlight
+
+//@ func (h *sentPacketHandler) ResetForRetry$1
+//@   props C06
+//@   requires h != nil && arg1 != nil
+//@   ensures [retransmit-iff-ack-eliciting] called("(*sentPacketHandler).queueFramesForRetransmission") == ite(old(len(arg1.Frames)) > 0 || old(len(arg1.StreamFrames)) > 0, 1, 0)
+//@   ensures [first-send-time-kept] implies(old(firstPacketSendTime) != 0, firstPacketSendTime == old(firstPacketSendTime))
+//@   ensures [loop-continues] result
+//@   modifies arg1.StreamFrames, arg1.Frames, firstPacketSendTime
+
+//@ func (h *sentPacketHandler) ResetForRetry$2
+//@   props C06
+//@   requires h != nil && arg1 != nil
+//@   ensures [retransmit-iff-ack-eliciting] called("(*sentPacketHandler).queueFramesForRetransmission") == ite(old(len(arg1.Frames)) > 0 || old(len(arg1.StreamFrames)) > 0, 1, 0)
+//@   ensures [loop-continues] result
+//@   modifies arg1.StreamFrames, arg1.Frames
+
+//@ func (h *sentPacketHandler) MigratedPath$2
+//@   props C06
+//@   requires h != nil && h.appDataPackets != nil
+//@   ensures [probe-removed] called("(*sentPacketHistory).RemovePathProbe") == 1 && result
+//@   modifies h.appDataPackets.history.pathProbePackets, h.appDataPackets.history.pathProbePackets[*]
+
+//@ func (h *sentPacketHistory) Remove
+//@   props C06
+//@   requires h.hInv() && forall(k, 0, len(h.packets), implies(h.packets[k] != nil && !h.packets[k].IsPathMTUProbePacket && !h.packets[k].isPathProbePacket && (len(h.packets[k].StreamFrames) > 0 || len(h.packets[k].Frames) > 0), h.numOutstanding >= 1), trig(h.packets, k))
+//@   requires implies(len(h.packets) > 0 && h.firstPacketNumber <= pn && pn <= h.highestPacketNumber, h.packets[pn - h.firstPacketNumber] != nil)
+//@   let found = old(len(h.packets)) > 0 && old(h.firstPacketNumber) <= pn && pn <= old(h.highestPacketNumber)
+//@   ensures [not-found-iff-error] iff(result != nil, !found)
+//@   ensures [miss-noop] implies(!found, len(h.packets) == old(len(h.packets)) && h.numOutstanding == old(h.numOutstanding))
+//@   ensures [outstanding] h.numOutstanding == old(h.numOutstanding) || h.numOutstanding == old(h.numOutstanding) - 1
+//@   ensures [inv-shape] len(h.packets) == 0 || h.packets[0] != nil
+//@   ensures [highest-kept] h.highestPacketNumber == old(h.highestPacketNumber)
+//@   modifies h.numOutstanding, h.packets, h.packets[*], h.firstPacketNumber
+//@ loop (h *sentPacketHistory) Remove #0
+//@   invariant 0 <= idx && idx < len(h.packets) && !hasPacketBefore && samearray(h.packets, old(h.packets)) && len(h.packets) == old(len(h.packets)) && h.numOutstanding >= 0
+//@   invariant forall(k, idx, old(pn - h.firstPacketNumber) + 1, h.packets[k] == nil, trig(h.packets, k))
+//@   invariant h.firstPacketNumber == old(h.firstPacketNumber) && h.highestPacketNumber == old(h.highestPacketNumber)
+//@   invariant implies(old(pn - h.firstPacketNumber) > 0, h.packets[0] != nil) && idx <= old(pn - h.firstPacketNumber)
+//@   modifies nothing
+
+//@ func (h *sentPacketHandler) DropPackets$2
+//@   props C06
+//@   let hist = h.appDataPackets.history
+//@   requires h != nil && h.appDataPackets != nil && arg1 != nil && 0 <= h.bytesInFlight && 0 <= arg1.Length && (!arg1.includedInBytesInFlight || arg1.Length <= h.bytesInFlight)
+//@   requires hist.hInv() && forall(k, 0, len(hist.packets), implies(hist.packets[k] != nil && !hist.packets[k].IsPathMTUProbePacket && !hist.packets[k].isPathProbePacket && (len(hist.packets[k].StreamFrames) > 0 || len(hist.packets[k].Frames) > 0), hist.numOutstanding >= 1), trig(hist.packets, k))
+//@   requires implies(len(hist.packets) > 0 && hist.firstPacketNumber <= arg0 && arg0 <= hist.highestPacketNumber, hist.packets[arg0 - hist.firstPacketNumber] != nil)
+//@   let zeroRTT = arg1.EncryptionLevel == protocol.Encryption0RTT
+//@   ensures [only-0rtt-packets-dropped] implies(!zeroRTT, !result && h.bytesInFlight == old(h.bytesInFlight) && called("(*sentPacketHistory).Remove") == 0)
+//@   ensures [dropped-once] implies(zeroRTT, result && called("(*sentPacketHistory).Remove") == 1 && h.bytesInFlight == old(h.bytesInFlight) - ite(old(arg1.includedInBytesInFlight), arg1.Length, 0) && !arg1.includedInBytesInFlight)
+//@   modifies h.bytesInFlight, arg1.includedInBytesInFlight, hist.numOutstanding, hist.packets, hist.packets[*], hist.firstPacketNumber
